@@ -1,6 +1,6 @@
 CONSTANTS
  Confs <- MCConfs
- FixWaitErr = FALSE
+ FixWaitErr = TRUE
  Reduce = FALSE
  MCShapes = {"img", "inline", "dtag"}
  MCPairs = {"tworeg", "samereg", "reg2dir"}
